@@ -58,6 +58,7 @@ def check(ctx):
     ctx.rule("R4", "on a miss the complete source is compiled and the executed code is either the validated cache entry or that compilation", floor=6)
     ctx.rule("R5", "every input of the memoised compilation that can change its result is part of the cache key or a constant", floor=4)
     ctx.rule("R6", "the code-cache name is a digest of the complete text", floor=1)
+    ctx.rule("R8", "the entry writer starts from an empty file (truncating open, or O_TRUNC/O_EXCL, or temp + replace): an interrupted rewrite leaves a short entry that the guarded load rejects, never a new prefix glued to the old entry's tail", floor=1)
     ctx.rule("R7", "a cache entry is stored before the compiled code runs: nothing that executes user code lies between reading the source and stamping the entry (the entry's time is compared with the source's)", floor=2)
 
     mod = ctx.repo.module(CC)
@@ -372,6 +373,28 @@ def check(ctx):
             ok = any(c in hcalls for c in ast.walk(n.value) if isinstance(c, ast.Call))
             ctx.ob("R6", f"{CC}:code_cache_name", "the returned name is the digest", ok, key="digest-not-returned", where=loc(n))
 
+    # ---- R8: how the writer opens the entry
+    updf = flat(ctx, mod.func("update_cache"), 1)
+    n8 = 0
+    for c in calls_in(updf):
+        nm = call_name(c) or ""
+        if getattr(stmt_of(c), "_xv_call_marker", False):
+            continue
+        if nm == "open" and is_write_mode(open_mode(c) or "r"):
+            n8 += 1
+            md = open_mode(c) or ""
+            ctx.ob("R8", f"{CC}:update_cache", f"`{short(c, 50)}` truncates the entry before writing (mode {md!r})", "w" in md or "x" in md, key="update_cache|entry-not-truncated", where=loc(c))
+        elif nm == "os.open":
+            n8 += 1
+            fl = unparse(c.args[1]) if len(c.args) > 1 else ""
+            ok = "O_TRUNC" in fl or "O_EXCL" in fl
+            ctx.ob("R8", f"{CC}:update_cache", f"`{short(c, 60)}` opens the entry with O_TRUNC (or creates it exclusively)", ok, key="update_cache|entry-not-truncated", where=loc(c), detail=None if ok else "without O_TRUNC an interrupted rewrite leaves new bytes followed by the old entry's tail: full length, valid header, fresh mtime")
+        elif nm in ("os.replace", "os.rename"):
+            n8 += 1
+            ctx.ob("R8", f"{CC}:update_cache", f"`{short(c, 50)}` publishes a completely written temp file", True, key="update_cache|replace")
+    if not n8:
+        raise AnchorMissing(f"{CC}:update_cache: how the entry is opened for writing")
+
     # ---- R7: store-then-run.  script_cache_check trusts an entry that is not older than the source; an entry written
     # after the script ran carries the end time of the run but the text of its start - an edit made meanwhile is lost.
     RUNS = ("run_compiled_code", "exec", "eval")
@@ -405,5 +428,5 @@ META = {
     "mtime granularity and marshal's behaviour on decodable garbage are not decided.",
     "note": "Decides the listed structural clauses, not the behaviour. Trusted: marshal.load raises on a truncated "
     "stream; os.stat mtime semantics. Known findings (key misses context/mode) are listed in known_findings.json.",
-    "more": "Also decided: a cache entry is stored before the compiled code runs (its time stamp is compared with the source's).",
+    "more": "Also decided: a cache entry is stored before the compiled code runs (its time stamp is compared with the source's). The entry writer starts from an empty file (truncating open / O_TRUNC / temp + replace).",
 }
